@@ -753,9 +753,15 @@ type c13Ctx struct {
 	bfsStatesCounted bool
 }
 
-// mine shards the work units of all parts with one running counter.
+// mine shards the work units of parts other than (a) with one running counter.
+// The first shard runs part (a) (a traced helper process, slow on a busy
+// machine); with at least four shards it gets no other work units.
 func (c *c13Ctx) mine() bool {
 	c.unit++
+	n, sh := verifmc.EnvInt("VERIF_NSHARDS", 1), verifmc.EnvInt("VERIF_SHARD", 0)
+	if n >= 4 {
+		return c.unit%(n-1)+1 == sh
+	}
 	return c.rp.Mine(c.unit)
 }
 
